@@ -16,8 +16,8 @@ def rows(pattern):
         out.append('| %s | %s | %s | %s |' % (os.path.basename(d), b, v,
                                                det.get('klass', '') or ','.join(det.get('broken', []))))
     return out
-r1 = rows('/verif/seeded/C*-m[0-9]'); r2 = rows('/verif/seeded/C*-r2m*')
-allr = r1 + r2
+r1 = rows('/verif/seeded/C*-m[0-9]'); r2 = rows('/verif/seeded/C*-r2m*'); r3 = rows('/verif/seeded/C*-r3m*')
+allr = r1 + r2 + r3
 n_conc = sum('| concrete input |' in r for r in allr)
 n_nf = sum('| no-failing-input-found |' in r for r in allr)
 n_not = sum('not caught' in r for r in allr)
@@ -33,7 +33,10 @@ property while the repository's tests still pass, with a demonstration program. 
 agents, 60 changes) worked on the pinned tree while the checks were being built; round 2 (20
 agents, 60 changes, one agent per property again) worked on /repo HEAD after the fixes, with the
 instruction to avoid single-site edits (multi-step histories, boundary values, exception paths,
-state that outlives a reset, two cooperating sites). I confirmed each change myself
+state that outlives a reset, two cooperating sites); round 3 (10 agents, 30 changes, for C02–C05,
+C07, C10, C14, C15, C16, C20) was told which kinds of change had been tried and asked for subtler
+ones (one value of a table, one field's encoding, a flag updated on a rarely taken branch, a
+three-step history, a shared helper wrong for one of its callers). I confirmed each change myself
 (`tools/confirm_seed.py`: patch applies to /repo HEAD, demo exits non-zero with it and 0 without,
 full test suite on the patched tree fails nothing beyond the baseline's always-failing/flaky
 tests) and stored it as `seeded/<id>/{patch.diff, demo.py, meta.json}`; changes whose lines were
@@ -46,12 +49,17 @@ stored change is run through the check of its property with `tools/mutate.sh` (p
 
 **Result (final run).** %d changes stored (round 1: 58 — C19-m2 became behaviourally equivalent
 after fix 17, and C03-m2's demonstration relied on defects that fixes 25/25b removed, the change
-itself being caught by C03 and C18 on the raising-frame scenario; round 2: 60). %d are caught with
+itself being caught by C03 and C18 on the raising-frame scenario; round 2: 60; round 3: 30). %d are caught with
 a concrete failing input, %d as `no-failing-input-found` (the change alters modelled behaviour —
 correspondence or a proof obligation breaks — without the oracle exhibiting a violation of the
 statement on the fixed tree; e.g. C12-m3: `running` clears one step later, which the statement
-allows), and %d is not caught: C18-m2, which is proved equivalent on the fixed tree
-(`C03_receiver_last_branch_never_raises`: no reachable frame raises in the branch it edits).
+allows), and %d are not caught by the check of the property they were written for: C18-m2, which is
+proved equivalent on the fixed tree (`C03_receiver_last_branch_never_raises`: no reachable frame
+raises in the branch it edits), and C07-r3m3 (a USD flag cleared on the wrong branch makes a second
+trigger block for ever inside `parse`, i.e. in socketserver's connection-handler thread): C07's
+ledger covers the threads, timers and servers the *System* starts, not a handler thread blocked
+inside `parse`; that change is caught with a concrete input by C13 (`trigger_release`, theorem
+`C13_never_blocks`) and by C02's correspondence. This is a stated limit of the C07 model.
 
 **What the misses taught, and what was changed** (no check was loosened; every row was missed on
 first contact and is caught now):
@@ -72,9 +80,10 @@ first contact and is caught now):
 | C01-r2m3 `ex.args[0]` on a bare `ValueError` | scripted parser raised only `ValueError('text')`, logging disabled | 41-kind exception alphabet, `str` subclasses, nine `OSError` kinds, records really formatted |
 | C11-m2 / C11-r2m3 broadcast reset rebinding the driver list | harness crashed (`no-failing-input-found`) | harness follows `system.drivers`; motion probe on the positioning thread's own list |
 | C06-r2m3 class-level `Value` flags written through `.value` | custom `system_*` commands drawn with 4 %% probability | every custom operation exercised deterministically per driver |
+| C16-r3m1 a new subscriber is handed the previous publication's buffer | publications were single loop iterations with the subscriber present from the start | `run_loop` scenarios: subscribers joining/leaving mid-period, every frame checked at the moment it is put (C08 caught it as `stale_frame` meanwhile) |
 
 **False alarms found and removed.** Wide seed sweeps of the full checks on the unchanged tree
-(`vp run` snapshots: 80 + 400 + 300 + 200 check runs over seeds 2–55, plus four `vp check` runs)
+(`vp run` snapshots: 80 + 400 + 300 + 200 + 200 check runs over seeds 2–69, plus five `vp check` runs)
 raised two alarms, both oracle bugs, both fixed at the root and pinned in `corpus/`: the
 weather-station C05 oracle decided "acknowledged" from the typed text instead of the framer's
 segmentation (`Tw dn01 --1 …`, seed 4); the MSCU C05 oracle tested the theorem's precondition
@@ -85,12 +94,12 @@ false-alarm sources — receiver C05 (an interleaved random request could itself
 the known DIO 11/12 finding, ≈ 1 seed in 40), C07's real-timer smoke run (a cancelled-but-not-yet-
 exited Timer thread under load), totalpower/dbesm C03 "state-neutral" histories that glued a
 truncated piece to garbage into a valid write (≈ 1 seed in 120) — and hardened C08's baton
-scheduler so that a hand-off timeout under load is a note, never a violation. The last sweep
-(seeds 46–55, all 20 properties, final tree) and `vp check` had no alarm.
+scheduler so that a hand-off timeout under load is a note, never a violation. The last two sweeps
+(seeds 46–55 and 60–69, all 20 properties, after the hardening) and `vp check` had no alarm.
 
 ### Round 1
 
-''' % (len(allr), n_conc, n_nf, n_not) + hdr + '\n'.join(r1) + '\n\n### Round 2\n\n' + hdr + '\n'.join(r2) + '\n'
+''' % (len(allr), n_conc, n_nf, n_not) + hdr + '\n'.join(r1) + '\n\n### Round 2\n\n' + hdr + '\n'.join(r2) + '\n\n### Round 3\n\n' + hdr + '\n'.join(r3) + '\n'
 d = open('/verif/DESIGN.md').read()
 i = d.find('\n---------------------------------------------------------------------------\n\n## 14. Seeded changes')
 if i >= 0:
